@@ -14,8 +14,12 @@ impl Address {
     pub fn require_auth(&self) {
         crate::model::require_auth_impl(self.0)
     }
+    /// An authorisation bound to caller-chosen arguments is a DIFFERENT credential from the
+    /// standard one (which the host binds to the invocation's own arguments): it is granted by a
+    /// separate symbolic boolean per principal, so code that demands only this one does not
+    /// establish `auth_of(principal)`.
     pub fn require_auth_for_args(&self, _args: crate::Vec<Val>) {
-        crate::mfail!("MODEL:require_auth_for_args is not modelled")
+        crate::model::require_auth_for_args_impl(self.0)
     }
     pub fn to_val(&self) -> Val {
         Val::atom(T_ADDR, self.0 as u128)
